@@ -105,9 +105,7 @@ func (pkg CurUpdatePackage) WriteTo(ch BytesChannel) error {
 	if pkg.CursorID == 0 {
 		totalLength += 1 + len(pkg.Name)
 	}
-	if len(pkg.Stmt) > 0 {
-		totalLength += 2 + len(pkg.Stmt)
-	}
+	totalLength += 2 + len(pkg.Stmt)
 
 	if err := ch.WriteUint16(uint16(totalLength)); err != nil {
 		return err
@@ -139,14 +137,14 @@ func (pkg CurUpdatePackage) WriteTo(ch BytesChannel) error {
 		return err
 	}
 
-	if len(pkg.Stmt) > 0 {
-		if err := ch.WriteUint16(uint16(len(pkg.Stmt))); err != nil {
-			return err
-		}
+	// The statement length is always part of the package, also for
+	// an empty statement.
+	if err := ch.WriteUint16(uint16(len(pkg.Stmt))); err != nil {
+		return err
+	}
 
-		if err := ch.WriteString(pkg.Stmt); err != nil {
-			return err
-		}
+	if err := ch.WriteString(pkg.Stmt); err != nil {
+		return err
 	}
 
 	return nil
